@@ -46,6 +46,11 @@ STANDARD16 += ["bright_" + n for n in STANDARD16]
 
 WS = [" ", "\t", "\n", "\x0b", "\x0c", "\r", "\x1c", "\x1d", "\x1e", "\x1f"]
 
+# one-word links inside Style.wf: upper case, %-escapes, non-ASCII (incl. characters whose lower() differs, is longer,
+# or is context dependent), keywords of the style grammar, very long
+LINK_WORDS = ["HTTPS://Example.COM/Path?Q=%20&x=%C3%89", "%", "%s%d%%", "\u00dcn\u00efcode://\u00df\u1e9e/\u0130\u212a", "\U0001f600", "BOLD", "NOT", "ON", "None", "#FF0000",
+              "http://x/" + "aB%2F" * 1200]
+
 
 def documented_colors():
     """(number, name) rows of docs/source/appendix/colors.rst — the documentation, not the code."""
@@ -211,8 +216,11 @@ class Pools:
         from rich.color_triplet import ColorTriplet
 
         self.rng = rng
-        good = ["red", "blue", "bright_white", "grey0", "default", "#ff0000", "#0a0b0c", "color(5)", "color(200)", "rgb(1,2,3)", "rgb(255,0,0)"]
+        good = ["red", "blue", "bright_white", "grey0", "default", "#ff0000", "#0a0b0c", "color(5)", "color(200)", "rgb(1,2,3)", "rgb(255,0,0)", "color(15)", "color(16)", "#000000", "#ffffff"]
         self.canon_colors = [Color.parse(x) for x in good]
+        # colour constructor calls (evaluated by L.mk_color on rich, by the model on the Lean side)
+        self.ctor_calls = [("default",), ("ansi", 0), ("ansi", 15), ("ansi", 16), ("ansi", 17), ("ansi", 255), ("ansi", 256), ("trip", 0, 0, 0), ("trip", 255, 15, 16),
+                           ("trip", 9, 10, 160), ("rgb", 3, 4, 1023), ("rgb", 1020, 63, 64), ("trip", 256, 0, 0)]
         self.odd_colors = [
             Color.parse("rgb(1, 2, 3)"),  # a name with white space
             Color.from_ansi(3), Color.from_ansi(77), Color.from_triplet(ColorTriplet(1, 2, 3)), Color.default(),
@@ -221,7 +229,7 @@ class Pools:
             Color("RED", ColorType.STANDARD, 1), Color("red", ColorType.WINDOWS, 1), Color("red", ColorType.STANDARD, 2), Color("bold", ColorType.STANDARD, 1),
         ]
         self.color_strs = good + ["RED", " red ", "Bright_White", "#FF0000", "nope", "", "rgb(1,,2)", "color(256)", "rgb(1, 2, 3)"]
-        self.links = [None, None, None, "", "x", "https://a.b/c?d=e", "a b", "A", "link", "on", "not", "bold", "none", "\x1cx", "x\n"]
+        self.links = [None, None, None, "", "x", "https://a.b/c?d=e", "a b", "A", "link", "on", "not", "bold", "none", "\x1cx", "x\n"] + LINK_WORDS + ["a\u3000b", " x", "x\u2028"]
 
     def color(self, canon=False):
         r = self.rng
@@ -238,6 +246,8 @@ class Pools:
             return None
         if k < 0.7:
             return ("S", r.choice(self.color_strs if r.random() < 0.4 else self.color_strs[:11]))
+        if k < 0.8:
+            return ("C", self.ctor())
         return ("C", self.color() or self.canon_colors[0])
 
     def kw(self, dense=None):
@@ -247,7 +257,19 @@ class Pools:
 
     def link(self, wf=False):
         r = self.rng
-        return r.choice(self.links[:3] + ["x", "https://a.b/c?d=e", "A"]) if wf else r.choice(self.links)
+        return r.choice(self.links[:3] + ["x", "https://a.b/c?d=e", "A"] + LINK_WORDS) if wf else r.choice(self.links)
+
+    def ctor(self):
+        """A colour constructor call: the fixed corner cases or a random in-range one."""
+        r = self.rng
+        k = r.random()
+        if k < 0.5:
+            return r.choice(self.ctor_calls)
+        if k < 0.7:
+            return ("ansi", r.randint(0, 255))
+        if k < 0.85:
+            return ("trip", r.randint(0, 255), r.randint(0, 255), r.randint(0, 255))
+        return ("rgb", r.randint(0, 1023), r.randint(0, 1023), r.randint(0, 1023))
 
     def leaf(self):
         r = self.rng
@@ -256,8 +278,10 @@ class Pools:
             return ("N",)
         if k < 0.55:
             return ("I", self.colorarg(), self.colorarg(), self.kw(), self.link())
-        if k < 0.75:
+        if k < 0.68:
             return ("F", self.color(), self.color())
+        if k < 0.75:
+            return ("F", self.ctor() if r.random() < 0.7 else None, self.ctor() if r.random() < 0.5 else None)
         ws = []
         for _ in range(r.randint(0, 4)):
             w = r.choice(list(SPELLINGS) + ["red", "on blue", "link x", "not bold", "not u", "#010203", "on color(9)", "default", "link A"])
@@ -281,8 +305,12 @@ class Pools:
             return ("W", self.route(depth - 1))
         if k < 0.89:
             return ("T", self.route(depth - 1))
-        if k < 0.96:
+        if k < 0.94:
             return ("H", r.random() < 0.5, [self.route(depth - 1) for _ in range(r.randint(0 if r.random() < 0.1 else 1, 3))])
+        if k < 0.96:
+            return ("K", [None if r.random() < 0.4 else self.route(depth - 1) for _ in range(r.randint(0 if r.random() < 0.1 else 1, 3))])
+        if k < 0.98:
+            return ("M", self.route(depth - 1), [self.route(depth - 1) for _ in range(r.randint(0, 2))])
         return ("B", self.route(depth - 1))
 
     # ---- routes to one given style
@@ -317,6 +345,16 @@ class Pools:
                 ws += ([c.name] if c else []) + (["on " + b.name] if b else []) + (["link " + link] if link else [])
                 r.shuffle(ws)
                 out.append(("P", " ".join(ws) or "none"))
+        # the same colours built through the public colour constructors (Color.from_ansi / from_triplet / from_rgb / default)
+        kc, kb = ctor_of(c, r), ctor_of(b, r)
+        if (c is None or kc is not None) and (b is None or kb is not None) and (c is not None or b is not None):
+            out.append(("I", carg(kc), carg(kb), kw, link))
+            if link or link is None:
+                out.append(("A", attrs_only_of(kw, link), ("F", kc, kb)))
+                out.append(("M", ("F", kc, None), [attrs_only_of(kw, link), ("F", None, kb)]))
+            if c is None and all(v is None for v in kw) and link is None:
+                out.append(("B", ("I", carg(self.canon_colors[0]), carg(kb), self.kw(), self.link())))
+        out.append(("K", [None, base, ("N",)]))
         linkless = ("I", carg(c), carg(b), kw, None)
         out.append(("U", link, linkless))
         out.append(("U", link, ("I", carg(c), carg(b), kw, "other")))
@@ -357,9 +395,49 @@ class Pools:
         return out
 
 
+def ctor_of(c, rng):
+    """A constructor call that must build exactly the Color `c` (None if there is none): oracle = the documented
+    meaning of the constructors, not the code."""
+    from rich.color import ColorType
+
+    if c is None:
+        return None
+    if c.type == ColorType.DEFAULT and c.name == "default":
+        return ("default",)
+    if c.type in (ColorType.STANDARD, ColorType.EIGHT_BIT) and c.name == f"color({c.number})" and (c.type == ColorType.STANDARD) == (c.number < 16):
+        return ("ansi", c.number)
+    if c.type == ColorType.TRUECOLOR and c.triplet is not None and c.name == "#%02x%02x%02x" % tuple(c.triplet):
+        t = c.triplet
+        if rng.random() < 0.5:
+            return ("trip", t[0], t[1], t[2])
+        return ("rgb", 4 * t[0] + rng.randint(0, 3), 4 * t[1] + rng.randint(0, 3), 4 * t[2] + rng.randint(0, 3))
+    return None
+
+
+def attrs_only_of(kw, link):
+    return ("I", None, None, kw, link)
+
+
+def pools_ctor_random(rng):
+    k = rng.random()
+    if k < 0.3:
+        return ("ansi", rng.randint(0, 255))
+    if k < 0.65:
+        return ("trip", rng.randint(0, 255), rng.randint(0, 255), rng.randint(0, 255))
+    return ("rgb", rng.randint(0, 1023), rng.randint(0, 1023), rng.randint(0, 1023))
+
+
 def flatten_chain(r):
     """Route with every chain/combine written as the left fold of + that `sum()` performs."""
     t = r[0]
+    if t == "K":
+        first = next((x for x in r[1] if x is not None), None)
+        return r if first is None else flatten_chain(first)
+    if t == "M":
+        acc = flatten_chain(r[1])
+        for x in r[2]:
+            acc = ("A", acc, flatten_chain(x))
+        return acc
     if t == "H":
         rs = [flatten_chain(x) for x in r[2]]
         acc = rs[0]
@@ -440,6 +518,10 @@ def stale_definition(route):
             return has_u(r[1])
         if t == "H":
             return any(has_u(x) for x in r[2])
+        if t == "K":
+            return any(x is not None and has_u(x) for x in r[1])
+        if t == "M":
+            return has_u(r[1]) or any(has_u(x) for x in r[2])
         return False
 
     return has_u(route)
@@ -455,6 +537,7 @@ def run(ctx):
 
     rng = ctx.rng
     quick = ctx.quick
+    wf = L.wf
     NULL = style_mod.NULL_STYLE
     str(NULL)  # NULL_STYLE in its steady state (its definition cache filled), as the model has it
     ctx.assumptions += [
@@ -517,6 +600,101 @@ def run(ctx):
             ctx.check(Color.parse(c.name) == c, "Color.parse", s, f"parsing the stored name {c.name!r} gives a different colour")
     ctx.flush()
 
+
+    # ---- 1b. the public colour constructors: Color.from_ansi / from_triplet / from_rgb / default — every number 0..255
+    # (and just outside), boundary triplets; compared STRUCTURALLY (name, ColorType, number, triplet) with the model and
+    # with an oracle written from the documentation; then every route from such a colour to a one-colour style
+    # (theorems from_ansi_is_parsed_color, from_triplet_is_parsed_hex, made_color_routes_agree, made_color_roundtrip)
+    def color_fields(c):
+        return (c.name, int(c.type), type(c.type).__name__, c.number, None if c.triplet is None else tuple(c.triplet))
+
+    calls = [("default",)] + [("ansi", n) for n in range(0, 260)] + [("ansi", 1000)]
+    edge = [0, 1, 9, 10, 15, 16, 17, 99, 100, 127, 128, 159, 160, 254, 255]
+    calls += [("trip", r_, g_, b_) for r_ in edge for g_ in (0, 15, 16, 255) for b_ in (0, 9, 10, 255)]
+    for v in range(256):
+        calls += [("trip", v, 0, 0), ("trip", 0, v, 0), ("trip", 0, 0, v)]
+    calls += [("trip", 256, 0, 0), ("trip", 0, 300, 0), ("trip", 0, 0, 4096), ("trip", 255, 255, 256)]
+    q4 = [0, 1, 3, 4, 5, 39, 40, 63, 64, 67, 1019, 1020, 1021, 1023]
+    calls += [("rgb", a_, b_, c_) for a_ in q4 for b_ in (0, 63, 64, 1023) for c_ in (3, 4, 1020)] + [("rgb", 1024, 0, 0), ("rgb", 0, 0, 1027)]
+    for _ in range(300 if quick else 20000):
+        calls.append(pools_ctor_random(rng))
+    for call in calls:
+        try:
+            c = L.mk_color(call)
+        except BaseException as e:  # noqa: BLE001 — the constructors do not validate; nothing is documented to raise
+            ctx.check(False, "Color." + call[0], L.show_color(call), f"raised {type(e).__name__}: {e}")
+            continue
+        # oracle from the documentation of the constructors
+        if call[0] == "ansi":
+            n = call[1]
+            want = Color(f"color({n})", ColorType.STANDARD if n < 16 else ColorType.EIGHT_BIT, n, None)
+            in_range = n <= 255
+        elif call[0] == "default":
+            want, in_range = Color("default", ColorType.DEFAULT, None, None), True
+        else:
+            comps = call[1:] if call[0] == "trip" else tuple(x // 4 for x in call[1:])
+            want = Color("#" + "".join("%02x" % x for x in comps), ColorType.TRUECOLOR, None, ColorTriplet(*comps))
+            in_range = all(x <= 255 for x in comps)
+        ctx.note("color_ctor:" + call[0] + (":in-range" if in_range else ":out-of-range"))
+        ctx.check(color_fields(c) == color_fields(want) and isinstance(c, Color), "Color." + call[0], L.show_color(call),
+                  f"built {color_fields(c)}, documented {color_fields(want)}")
+        try:
+            back = Color.parse(c.name)
+            okp = color_fields(back) == color_fields(c)
+        except ColorParseError:
+            back, okp = None, False
+        except BaseException as e:  # noqa: BLE001
+            back, okp = e, None
+        if in_range:
+            # the stored name is a definition of this very colour: same name, ColorType, number, triplet
+            ctx.check(okp is True, "Color." + call[0] + ":name-parses-back", L.show_color(call), f"Color.parse({c.name!r}) = {back!r} is not the colour {c!r} ({color_fields(c)})")
+        else:
+            ctx.check(okp is False and back is None, "Color." + call[0] + ":out-of-range", L.show_color(call), f"Color.parse({c.name!r}) of an out-of-range colour did not raise ColorParseError: {back!r}")
+        ans = L.enc_color(c) + " wf=" + ("1" if okp and not any(ch.isspace() for ch in c.name) else "0") + " hex="
+        ans += "-" if c.triplet is None else enc_str(c.triplet.hex) + " rgb=" + enc_str(c.triplet.rgb)
+        ctx.case("color_ctor", [FLAGS, L.enc_color(call)], ans, shape=call[0] + (":in" if in_range else ":out"), sample=L.show_color(call))
+        if c.triplet is not None and in_range:
+            try:
+                viargb = Color.parse(c.triplet.rgb)
+                okr = (viargb.type, viargb.triplet, viargb.number) == (c.type, c.triplet, c.number) and type(viargb.type) is ColorType
+            except BaseException:  # noqa: BLE001
+                okr = False
+            ctx.check(okr, "ColorTriplet.rgb", L.show_color(call), f"Color.parse({c.triplet.rgb!r}) is not the same truecolor")
+        if not in_range:
+            continue
+        # every route from this colour to a one-colour style gives the same style (==, hash, dict/set) and it round trips
+        for fg in (True, False):
+            key = "color" if fg else "bgcolor"
+            text = c.name if fg else "on " + c.name
+            try:
+                group = [
+                    ("Style(%s=<ctor>)" % key, Style(**{key: c})),
+                    ("Style(%s=name)" % key, Style(**{key: c.name})),
+                    ("Style.parse(text)", L.build(("P", text))),
+                    ("Style.from_color", Style.from_color(c, None) if fg else Style.from_color(None, c)),
+                    ("Style(%s=Color(...))" % key, Style(**{key: Color(want.name, want.type, want.number, want.triplet)})),
+                    ("NULL + s", NULL + Style(**{key: c})),
+                    ("copy", Style(**{key: c}).copy()),
+                ]
+                if not fg:
+                    group.append(("background_style", Style(color="red", bgcolor=c, bold=True, link="x").background_style))
+            except BaseException as e:  # noqa: BLE001
+                ctx.check(False, "Color." + call[0] + ":routes", (L.show_color(call), key), f"a construction route raised {type(e).__name__}: {e}")
+                continue
+            ref_name, ref = group[0]
+            for nm, o in group[1:]:
+                same = o == ref and ref == o and hash(o) == hash(ref) and {ref: 1}.get(o) == 1 and len({ref, o}) == 1
+                same = same and color_fields(getattr(o, key)) == color_fields(getattr(ref, key))
+                ctx.check(same, "Color." + call[0] + ":routes", (L.show_color(call), ref_name, nm), f"{ref_name} = {ref!r} and {nm} = {o!r} differ in ==, hash, dict/set behaviour or colour fields {color_fields(getattr(o, key))} / {color_fields(getattr(ref, key))}")
+            for nm, o in group:
+                ctx.check(wf(o), "Color." + call[0] + ":wf", (L.show_color(call), nm), "a style whose colour comes from a public constructor (in range) is not well-formed: its name does not parse back to it")
+                try:
+                    okb = Style.parse(str(o)) == o and Style.normalize(str(o)) == str(o) and str(o) == text
+                except BaseException:  # noqa: BLE001
+                    okb = False
+                ctx.check(okb, "Color." + call[0] + ":roundtrip", (L.show_color(call), nm), f"str() = {str(o)!r} does not parse back to the style / is not {text!r}")
+    ctx.flush()
+
     # ---- 2. documented spellings (oracle: the documentation, hand-copied / docs appendix)
     def only(s, **want):
         for a in ATTRS:
@@ -577,6 +755,38 @@ def run(ctx):
     except Exception:
         ok = False
     ctx.check(ok, "Style.parse:spelling", "default on default / link / none", "documented example does not parse as documented")
+
+
+    # ---- 2b. links (theorems link_word_verbatim, link_with_space_no_roundtrip): any ONE word — upper case, %, non-ASCII
+    # (incl. GREEK CAPITAL SIGMA, whose lower() is context dependent), very long — is kept verbatim by parse / normalize / str();
+    # a link with white space inside cannot round trip (the grammar takes the next word only)
+    sig_links = ["\u0391\u03a3", "\u03a3", "a\u03a3b", "\u039f\u0394\u039f\u03a3://\u03a3"]
+    for W in LINK_WORDS + sig_links + ["x", "https://a.b/c?d=e"]:
+        for tpl in ("link {}", "LINK {}", "bold link {} red", "on blue  Link\t{}\nnot italic", "link x link {}"):
+            d = tpl.format(W)
+            try:
+                st = Style.parse(d)
+                nz = Style.normalize(d)
+                ok = st.link == W and W in nz.split() and nz == str(st) and Style.parse(nz) == st and Style.parse(nz).link == W
+            except BaseException as e:  # noqa: BLE001
+                ok, nz = False, repr(e)
+            ctx.check(ok, "Style.parse:link-verbatim", d if len(d) < 200 else d[:60] + "...(%d chars)" % len(d), f"the word after `link` is not kept verbatim through parse / normalize / str(): {str(nz)[:120]!r}")
+        try:
+            st = Style(link=W, bold=True)
+            ok = Style.parse(str(st)) == st and hash(Style.parse(str(st))) == hash(st) and str(st) == "bold link " + W and st.update_link(W) == st and (NULL + st).link == W
+        except BaseException:  # noqa: BLE001
+            ok = False
+        ctx.check(ok, "Style(link=word)", W if len(W) < 200 else W[:60] + "...", "a one-word link does not round trip through str() / parse")
+    for W in ["a b", " x", "x ", "a\tb", "a\u3000b", "x\u2028y", "a b c", "bold italic", "\x1cx"]:
+        st = Style(link=W)
+        try:
+            back = Style.parse(str(st))
+            ok = back != st and back.link != W
+        except StyleSyntaxError:
+            ok = True
+        except BaseException:  # noqa: BLE001
+            ok = False
+        ctx.check(ok and not wf(st), "Style(link=with-space)", W, "a link containing white space round tripped (the theorem says it cannot) or raised an undocumented exception")
 
     # ---- 3. Style.parse / normalize on definitions (the cached, public entry points)
     defs = definitions(rng, quick)
@@ -652,6 +862,32 @@ def run(ctx):
             s = route_case(("A", x, y))
             if s is not None:
                 built.append((("A", x, y), s))
+    # every colour constructor as a construction route: all 256 numbers (+ out of range), boundary triplets, float components
+    none13 = (None,) * 13
+    cc = [("default",)] + [("ansi", n) for n in range(0, 258)] + [("trip", r_, g_, b_) for r_ in (0, 9, 10, 15, 16, 255) for g_ in (0, 15, 16, 255) for b_ in (0, 160, 255)]
+    cc += [("rgb", 3, 4, 1023), ("rgb", 1020, 63, 64), ("rgb", 39, 40, 41), ("trip", 256, 0, 0), ("rgb", 1024, 0, 7)]
+    for call in cc:
+        for x in (("I", ("C", call), None, none13, None), ("F", None, call), ("I", None, ("C", call), (True,) + (None,) * 12, "x"), ("B", ("F", call, call)), ("W", ("F", call, None))):
+            s = route_case(x)
+            if s is not None:
+                built.append((x, s))
+        try:
+            nm = L.mk_color(call).name
+        except BaseException:  # noqa: BLE001 — judged in section 1b
+            continue
+        r1, r2 = ("I", ("C", call), None, none13, None), ("P", nm)
+        try:
+            o1, o2 = L.build(r1), L.build(r2)
+            ans = f"eq={int(o1 == o2)} hasheq={int(hash(o1) == hash(o2))}"
+        except BaseException as e:  # noqa: BLE001
+            ans = L.enc_err(e)
+        ctx.case("route_pair", [FLAGS, L.enc_route(r1), L.enc_route(r2)], ans, shape="ctor:" + call[0] + ":" + ans[:4], sample=f"{L.show(r1)}  vs  {L.show(r2)}")
+    # pick_first / sum(…, start) / combine corner cases
+    for x in (("K", []), ("K", [None]), ("K", [None, None]), ("K", [None, base[4], base[5]]), ("K", [base[0], None]), ("K", [None, ("P", "nope nope")]), ("K", [base[5], ("P", "nope nope")]),
+              ("M", base[4], []), ("M", base[0], [base[4], base[5]]), ("M", base[4], [base[0], base[5], base[8]]), ("M", ("T", base[4]), [("N",)])):
+        s = route_case(x)
+        if s is not None:
+            built.append((x, s))
     route_case(("H", False, []))
     route_case(("H", True, []))
     n_routes = 6000 if quick else 150000
@@ -737,6 +973,12 @@ def run(ctx):
             # styles that == NULL_STYLE but are not flagged `_null` (bool() True) are identities all the same
             ctx.check(all(e == NULL and bool(e) and (a + e == a) and (e + a == a) for e in empties), "Style.__add__:non-null-empty-identity", repr(a), "a style == Style() with _null False is not an identity")
             ctx.check(Style.chain(a, b, c) == lhs and Style.combine([a, b, c]) == lhs and Style.combine(iter([a])) == a, "Style.chain", (repr(a), repr(b), repr(c)), "chain/combine differ from a+b+c")
+            ctx.check(sum([b, c], a) == lhs and hash(sum([b, c], a)) == hash(lhs) and sum([], a) is a, "sum(styles, start)", (repr(a), repr(b), repr(c)), "sum([b, c], a) differs from (a+b)+c")
+            ctx.check(Style.pick_first(None, a, b) is a and Style.pick_first(a) is a and Style.pick_first(None, None, c, None) is c, "Style.pick_first", (repr(a), repr(b)), "pick_first did not return the first non-None value itself")
+            bs = a.background_style
+            ctx.check(bs == Style(bgcolor=a.bgcolor) and hash(bs) == hash(Style(bgcolor=a.bgcolor)) and bs.bgcolor == a.bgcolor and bs.color is None and bs.link is None and all(getattr(bs, at) is None for at in ATTRS) and bool(bs) == (a.bgcolor is not None),
+                      "Style.background_style", repr(a), "background_style is not Style(bgcolor=self.bgcolor)")
+            ctx.check(a.transparent_background == (a.bgcolor is None or a.bgcolor.type == ColorType.DEFAULT), "Style.transparent_background", repr(a), "transparent_background is not `no background or the default colour`")
             ctx.check(a.copy() == a and a.update_link(a.link) == a, "Style.copy", repr(a), "copy / update_link(same link) changed the style")
             wc = a.without_color
             ctx.check(wc.color is None and wc.bgcolor is None and wc.link == a.link and all(getattr(wc, at) == getattr(a, at) for at in ATTRS), "Style.without_color", repr(a), "without_color changed more than the colours")
@@ -809,8 +1051,10 @@ def run(ctx):
     ctx.rule = (
         "Color.parse: every table name + case/space/near-miss variants, per-form bounded enumeration (#hex lengths 5-7, color(n) bodies, "
         "rgb component triples over 14 component classes) + seeded mutations; Style.parse/normalize: all 1-3 word definitions over the word pools "
-        "+ seeded random definitions with random white space; routes: every unary constructor over 14 base styles, + over 21x21, seeded random route "
-        "terms of depth <= 4; route pairs: 10+ construction routes per random target style; distinct = distinct canonical requests"
+        "+ seeded random definitions with random white space; colour constructors: from_ansi 0..259 + 1000, from_triplet boundary grid 15x4x4 + three 0..255 sweeps "
+        "+ out-of-range, from_rgb over 14x4x3 quarter values, default, seeded random; routes: every unary constructor over 14 base styles, + over 21x21, 5 routes per "
+        "constructor colour (258 numbers, 72 triplets), pick_first / sum corner cases, seeded random route terms of depth <= 4 (14 term kinds); route pairs: 10+ construction "
+        "routes per random target style incl. constructor-built colours; distinct = distinct canonical requests"
     )
 
 
@@ -834,10 +1078,23 @@ MANIFEST = {
     "documented spellings: all 22 attribute words and `not <word>`, every ANSI_COLOR_NAMES entry (table translated from rich/color.py each run) "
     "alone and after `on`, color(n) for n<=255, default, #rrggbb for all hex digits of either case, rgb(r,g,b) for all r,g,b<=255; "
     "eq_hash: for every two styles reachable through __init__/from_color/parse/+/chain/combine/copy/update_link/without_color/str(), "
-    "a == b implies equal stored hash keys (induction on the construction route). Decide-checked witnesses for the six defects found "
+    "a == b implies equal stored hash keys (induction on the construction route); the remaining public constructors are modelled and inside the "
+    "constructible styles: background_style_spec (= Style(bgcolor=self.bgcolor)), pick_first_combine_sum / pick_first_sum_reachable (pick_first returns the first "
+    "non-None value itself, ValueError if none; combine = chain; sum(styles, start) = left fold of +), transparent_background_spec. "
+    "Colour constructors as construction routes (Model/StyleCtor.lean: Color.from_ansi / from_triplet / from_rgb / default, ColorTriplet.hex / .rgb): "
+    "from_ansi_is_parsed_color (Color.parse('color(n)') IS Color.from_ansi(n), field by field incl. ColorType, all n <= 255; from_ansi_out_of_range: 256 is not), "
+    "from_triplet_is_parsed_hex (all 2^24 triplets; from_rgb of floats truncating to it), made_color_wf, made_color_routes_agree (Style(color=c), Style(color=c.name), "
+    "Style.parse(c.name), Style.from_color(c), and the bgcolor / `on` / background_style forms are one style with one hash key), made_color_roundtrip. "
+    "Links: link_word_verbatim (any one word after `link` - upper case, %, non-ASCII, any length - is stored verbatim; normalize keeps it), "
+    "link_with_space_no_roundtrip (a link containing white space cannot round trip, whatever its str() parses to) + link_two_words_witness. "
+    "Decide-checked witnesses for the six defects found "
     "(old_*_hash_wrong x4, old_update_link_stale_str, old_empty_link_breaks_identity). Tie: ~55k (quick) / ~1.1M (thorough) generated cases "
     "per run compared model-vs-rich on the full modelled state (fields, _null, _style_definition, str(), the 13 getters, stored-hash "
-    "consistency, wf) over all code points (KELVIN SIGN, non-ASCII digits and white space, the int() 4300-digit limit), every entry of the "
+    "consistency, wf, transparent_background) — routes now include pick_first, sum(styles, start), background_style in the model, and colours built by the "
+    "model's own Color.from_ansi (every number 0..259, 1000) / from_triplet (boundary grid + three 0..255 sweeps) / from_rgb (quarter-valued floats) / default, "
+    "compared structurally (name, ColorType, number, triplet: request color_ctor, ~1.7k quick) and evaluated directly against an oracle written from the "
+    "documentation (every in-range constructor colour: name parses back to the same four fields; 7-8 construction routes per colour and ground agree on ==, "
+    "hash, dict/set and colour fields; wf; str() round trip) — over all code points (KELVIN SIGN, non-ASCII digits and white space, the int() 4300-digit limit), every entry of the "
     "character tables against the real str methods, plus the theorems' executable statements evaluated on real Style objects with "
     "model-independent oracles (keyword reconstruction, docs/source/appendix/colors.rst, dict/set behaviour).",
     "note": "Code variant flags (1 = rich 9.10.0 as found, 0 = repaired, what /repo contains): RGB_VALUEERROR=0 (F9, owned by C14, fix c34676b), "
@@ -850,7 +1107,10 @@ MANIFEST = {
     "compares hash equality with key equality on every route pair. str.lower() of a string containing GREEK CAPITAL SIGMA is context dependent "
     "(final-sigma rule): answered `unmodelled` (counted) while the direct evaluation still runs on it. lru_cache on parse/normalize assumed "
     "transparent; NULL_STYLE modelled in its steady state; _link_id and _ansi not modelled. The text round trip is stated for links that are None "
-    "or one non-empty word. normalize is NOT idempotent on definitions that do not parse (`italic not Bold`: witness theorem "
+    "or one non-empty word (proved necessary: link_with_space_no_roundtrip). Colour constructors: negative / non-numeric arguments are outside the model "
+    "(from_rgb components are sent as non-negative quarters); Style.pick_first with str values (returned as they are) and Style.test / render are not modelled; "
+    "there is no Style.__radd__ (sum(styles) without a Style start raises TypeError) - only sum(styles, start) is modelled. The final-sigma target of deepening "
+    "round 4 was NOT done: GREEK CAPITAL SIGMA requests are still `unmodelled` (direct evaluation runs on them, incl. links containing it). normalize is NOT idempotent on definitions that do not parse (`italic not Bold`: witness theorem "
     "normalize_not_idempotent_unparseable) — outside the statement. bool(style) follows the stored _null flag, which == ignores — outside the statement. "
     "Trusted: Lean kernel; axioms propext/Classical.choice/Quot.sound; translator plug-ins harness/gen/color_names.py and harness/gen/str_tables.py "
     "(the latter translates facts about CPython's str, re-validated on all code points each run); the correspondence harness.",
